@@ -36,14 +36,15 @@ def getIndex (j : Json) : Except String Index := do
   | _ => pure (.one (← getPart j))
 
 /-- the array under test: cells are their own flat position -/
-def mkRA (req : Json) : Except String (Except Err (RA Nat) × Bool) := do
+def mkRA (req : Json) : Except String (Except Err (RA Nat) × Bool × Bool) := do
   let lengths ← getList getNat (← field req "lengths")
   let ctor ← getStr (← field req "ctor")
   let fast ← getBool (← field req "fast")
+  let fixed ← getBool (← field req "fixed")
   let ids := List.range lengths.sum
   match ctor with
-  | "rows" => pure (.ok (ofRows (partitionAux ids 0 lengths)), fast)
-  | "flat" => pure (ofFlat ids lengths, fast)
+  | "rows" => pure (.ok (ofRows (partitionAux ids 0 lengths)), fast, fixed)
+  | "flat" => pure (if fixed then ofFlatF ids lengths else ofFlat ids lengths, fast, fixed)
   | _ => throw s!"bad ctor {ctor}"
 
 def rowsJson (r : List (List Nat)) : Json := listJson (listJson natJson) r
@@ -66,23 +67,23 @@ def handle (op : String) (req : Json) : Except String Json := do
     | none => pure (errJson "value-error")
     | some ix => pure (okJson (listJson natJson ix))
   | "get" =>
-    let (ra?, fast) ← mkRA req
+    let (ra?, fast, fixed) ← mkRA req
     let idx ← getIndex (← field req "idx")
-    pure (wrap resJson (ra? >>= fun ra => getItem ra fast idx))
+    pure (wrap resJson (ra? >>= fun ra => getItemV fixed ra fast idx))
   | "where" =>
     let m ← getMask (← field req "idx")
     pure (wrap (fun ps => Json.arr #[listJson natJson (ps.map (·.1)), listJson natJson (ps.map (·.2))]) (whereIdx m))
   | "iter" =>
-    let (ra?, fast) ← mkRA req
-    pure (wrap rowsJson (ra? >>= fun ra => iter ra fast))
+    let (ra?, fast, fixed) ← mkRA req
+    pure (wrap rowsJson (ra? >>= fun ra => if fixed then iterF ra fast else iter ra fast))
   | "flatten" =>
-    let (ra?, _) ← mkRA req
+    let (ra?, _, _) ← mkRA req
     pure (wrap (listJson natJson) (ra?.map flatten))
   | "attrs" =>
-    let (ra?, fast) ← mkRA req
+    let (ra?, fast, fixed) ← mkRA req
     pure (wrap id (ra? >>= fun ra => do
       let sh ← shape ra
-      let n ← len ra fast
+      let n ← if fixed then lenF ra fast else len ra fast
       pure (Json.mkObj [("lengths", listJson natJson ra.lengths),
                         ("starts", listJson natJson (starts ra.lengths)),
                         ("shape", Json.arr #[natJson sh.1, optJson natJson sh.2]),
